@@ -300,6 +300,13 @@ pub fn err_obs(e: &sonic_rs::Error) -> (usize, usize, usize, String) {
 
 /// structural equality of two reference trees over their own texts: same nesting, order, decoded
 /// strings and keys, booleans/null, numbers by C07 class (bit-exact floats)
+thread_local! {
+    /// set by callers that compare two documents the way `==` on primitives does (C19's equality
+    /// laws): the two float zeros are then equal. Everywhere else a number is compared with the
+    /// literal it came from and the sign of zero counts.
+    pub static ZERO_SIGN_INSENSITIVE: std::cell::Cell<bool> = const { std::cell::Cell::new(false) };
+}
+
 pub fn tree_eq(a: &R, ta: &[u8], b: &R, tb: &[u8], path: &mut String) -> Result<(), String> {
     match (&a.k, &b.k) {
         (K::Null, K::Null) => Ok(()),
@@ -307,7 +314,10 @@ pub fn tree_eq(a: &R, ta: &[u8], b: &R, tb: &[u8], path: &mut String) -> Result<
         (K::Num(x), K::Num(y)) => {
             let la = &ta[a.start..a.end];
             let lb = &tb[b.start..b.end];
-            if x == y || num_agrees(*x, *y, lb) || num_agrees(*y, *x, la) {
+            // (the literal `-0` is the float -0.0 for the library)
+            let fzero = |n: &RefNum, lit: &[u8]| matches!(n, RefNum::F(p) if *p == 0.0) || is_neg_zero_int_literal(lit);
+            let both_zero = ZERO_SIGN_INSENSITIVE.with(|z| z.get()) && fzero(x, la) && fzero(y, lb);
+            if x == y || both_zero || num_agrees(*x, *y, lb) || num_agrees(*y, *x, la) {
                 Ok(())
             } else {
                 Err(format!(
